@@ -24,7 +24,7 @@ EXPLANATION = ('Preservation obligations of the attachment forest, checked at ea
                'an abstract heap (exact write sets per path), must-pass / guard rules for the detach paths of freeSlot and PUT_COPY, '
                'who-may-write on the three link fields, and the base-chain rebuild at finalisation.  The forest property itself under '
                'arbitrary rule sequences is an induction over these steps and is not mechanised.')
-FLOORS = {'TREEWRITERS': 5, 'ATTACH': 6, 'LISTOPS': 9, 'DETACH': 11, 'BASECHAIN': 3}
+FLOORS = {'TREEWRITERS': 5, 'ATTACH': 7, 'LISTOPS': 9, 'DETACH': 11, 'BASECHAIN': 3}
 
 
 def treewriters(run, fx):
@@ -636,6 +636,17 @@ def run(run):
     garbage_after_action(run)
     treewriters(run, fx)
     attach(run, fx)
+    inst_ = 'attaching any slot to any slot of any small forest leaves a forest (setAttr interpreted)'
+    sa_ = fx.one('graphite2::Slot::setAttr')
+    try:
+        from . import ordint as O_
+        cases_, bad_ = attach_exec(run, fx, 4 if getattr(run, 'tier', 'quick') == 'quick' else 5)
+        if bad_:
+            run.violated('ATTACH', inst_, sa_.where(), bad_)
+        else:
+            run.held('ATTACH', inst_, sa_.where(), '%d abstract executions' % cases_)
+    except (O_.AnalysisBroken, AnalysisBroken) as ex:
+        run.broken('ATTACH', inst_, str(ex), sa_.where())
     childreg(run, fx, vm)
     listops(run, fx)
     from . import ordint as O_
@@ -826,4 +837,123 @@ def freeslot_exec(run, fx):
                     v_ = S[PS + f_]
                     if isinstance(v_, O.Ptr) and v_.rec is not None:
                         return cases, '%s: the freed slot keeps %s = #%s' % (desc, f_, v_.rec['#'])
+    return cases, None
+
+
+def attach_exec(run, fx, maxn=4):
+    """ATTACH by bounded execution (rules/ordint.py): Slot::setAttr(gr_slatAttTo) -- the one place a rule attaches a slot -- with
+    Slot::child / sibling / removeChild / attachTo inlined from their own CFGs, is interpreted on EVERY forest of 1..maxn slots (every
+    parent function without a cycle; child chains in slot order and in reverse) and every (slot, target) pair, the slot itself and its
+    own descendants included ("re-attaching or mutually referential ways").  Afterwards the attachment structure is again a forest in
+    C04's sense: following the parent links from any slot ends at a base; a slot with a parent occurs exactly once in that parent's
+    child chain; every member of a chain names that parent; no chain is cyclic.  A target that is the slot itself, its present parent,
+    or one of its descendants never becomes its parent."""
+    import itertools
+    from . import ordint as O
+    PS, PM = 'graphite2::Slot::', 'graphite2::SlotMap::'
+    srec = fx.record('graphite2::Slot')
+    fn = fx.one('graphite2::Slot::setAttr')
+    att = None
+    for e_ in fx.raw['enums'].values():
+        for c_ in e_.get('consts', []):
+            if c_.get('n') == 'gr_slatAttTo':
+                att = c_.get('v')
+    if att is None:
+        raise AnalysisBroken('enumerator gr_slatAttTo not found')
+
+    def mkslot(k):
+        s = O.Rec()
+        for f in srec['fields']:
+            t = f.get('t') or ''
+            s[PS + f['n']] = O.Ptr(None) if f.get('ptr') else (O.Rec({'graphite2::Position::x': 0, 'graphite2::Position::y': 0}) if 'Position' in t else 0)
+        s['#'] = k
+        return s
+
+    def forests(n):
+        for par in itertools.product([None] + list(range(n)), repeat=n):
+            ok = True
+            for i in range(n):
+                seen, c = set(), i
+                while c is not None:
+                    if c in seen:
+                        ok = False
+                        break
+                    seen.add(c)
+                    c = par[c]
+                if not ok:
+                    break
+            if ok:
+                yield par
+
+    def check(slots, desc):
+        n = len(slots)
+        for s in slots:
+            seen, c = set(), s
+            while c is not None:
+                if id(c) in seen:
+                    return '%s: the parent links from slot #%d run in a cycle' % (desc, s['#'])
+                seen.add(id(c))
+                c = c[PS + 'm_parent'].rec
+        for p in slots:
+            chain, c, seen = [], p[PS + 'm_child'].rec, set()
+            while c is not None:
+                if id(c) in seen or len(chain) > n:
+                    return '%s: the child chain of slot #%d is cyclic' % (desc, p['#'])
+                seen.add(id(c))
+                chain.append(c)
+                c = c[PS + 'm_sibling'].rec
+            for c in chain:
+                if c[PS + 'm_parent'].rec is not p:
+                    return '%s: slot #%d is in the child chain of #%d but names %s as its parent' % (desc, c['#'], p['#'], ('#%d' % c[PS + 'm_parent'].rec['#']) if c[PS + 'm_parent'].rec else 'nobody')
+            for s in slots:
+                if s[PS + 'm_parent'].rec is p and sum(1 for c in chain if c is s) != 1:
+                    return '%s: slot #%d names #%d as its parent but occurs %d time(s) in its child chain' % (desc, s['#'], p['#'], sum(1 for c in chain if c is s))
+        return None
+    cases = 0
+    for n in range(1, maxn + 1):
+        for par in forests(n):
+            for rev in ((False, True) if n > 2 else (False,)):
+                for i in range(n):
+                    for j in range(n):
+                        slots = [mkslot(k) for k in range(n)]
+                        for k in range(n):
+                            if par[k] is not None:
+                                slots[k][PS + 'm_parent'] = O.Ptr(slots[par[k]])
+                        for p in range(n):
+                            kids = [k for k in range(n) if par[k] == p]
+                            if rev:
+                                kids.reverse()
+                            slots[p][PS + 'm_child'] = O.Ptr(slots[kids[0]]) if kids else O.Ptr(None)
+                            for a, b in zip(kids, kids[1:] + [None]):
+                                slots[a][PS + 'm_sibling'] = O.Ptr(slots[b]) if b is not None else O.Ptr(None)
+                        mapvec = O.Vec([O.Ptr(None)] + [O.Ptr(s) for s in slots] + [O.Ptr(None)])      # entry 0 of the slot map is the pre-context sentinel: map[k] is m_slot_map[k + 1]
+                        smap = O.Rec({PM + 'm_slot_map': O.It(mapvec, 0), PM + 'm_precontext': 0, PM + 'm_size': n, PM + 'm_dir': 0})
+                        it = O.Interp(fx)
+                        it.MAX_STEPS = 6000
+                        desc = 'forest %s%s, slot #%d attached to #%d' % (list(par), ' (child chains reversed)' if rev else '', i, j)
+                        cases += 1
+                        try:
+                            it.call(fn, slots[i], [O.Ptr(O.Rec()), att, 0, j, smap])
+                        except O.Violation as v:
+                            return cases, '%s: %s (%s)' % (desc, v.what, v.loc)
+                        err = check(slots, desc)
+                        if err:
+                            return cases, err
+                        newp = slots[i][PS + 'm_parent'].rec
+                        desc_of_i, c = set(), None
+                        stack = [i]
+                        while stack:
+                            x = stack.pop()
+                            for k in range(n):
+                                if par[k] == x and k not in desc_of_i:
+                                    desc_of_i.add(k)
+                                    stack.append(k)
+                        if j == i or j in desc_of_i:
+                            if newp is slots[j]:
+                                return cases, '%s: a slot became the child of %s' % (desc, 'itself' if j == i else 'its own descendant')
+                        elif j == par[i]:
+                            if newp is not slots[j]:
+                                return cases, '%s: re-stating the present parent changed it' % desc
+                        elif newp is not slots[j]:
+                            return cases, '%s: the attachment was not made (parent afterwards: %s)' % (desc, ('#%d' % newp['#']) if newp else 'none')
     return cases, None
